@@ -473,10 +473,14 @@ func (v *VM) exec() {
 			a := v.stack[len(v.stack)-2]
 			b := v.stack[len(v.stack)-1]
 			v.stack = v.stack[:len(v.stack)-2]
+			var n int
 			if b.t.base() == TypeSlice {
-				copy(a.data(), b.data())
+				n = copy(a.data(), b.data())
 			} else {
-				copy(a.data(), b.convert(TypeSlice).data())
+				n = copy(a.data(), b.convert(TypeSlice).data())
+			}
+			if codes[v.frame.N].B != 0 {
+				v.stack = append(v.stack, Int(n))
 			}
 
 		case codePass:
